@@ -432,6 +432,111 @@ pub fn run_follow(tables: &Tables, stmt: &Statement, content: &[u8]) -> Outcome<
 }
 
 /// run the real command line program (release build in target/cli): returns (stdout lines, stderr, exit ok)
+/// child process (`vcheck --child stmt <def-hex> <stmt-hex> <format> <file>...`): one statement through the batch
+/// executor with the address space limited to 6 GiB, so that a runaway allocation ends this process and not the checker.
+/// A file is `h:<hex>` (its content) or `dir` (a directory opened like a file: every read reports an error).
+pub fn child_stmt(args: &[String]) -> i32 {
+    unsafe {
+        let lim = libc::rlimit { rlim_cur: 6 << 30, rlim_max: 6 << 30 };
+        libc::setrlimit(libc::RLIMIT_AS, &lim);
+    }
+    let unhex = |s: &str| -> Vec<u8> { (0..s.len() / 2).map(|i| u8::from_str_radix(&s[2 * i..2 * i + 2], 16).unwrap()).collect() };
+    let def = String::from_utf8(unhex(&args[1])).unwrap();
+    let text = String::from_utf8(unhex(&args[2])).unwrap();
+    let format = match args[3].as_str() {
+        "csv" => OutputFormat::CSV(";".into()),
+        "text" => OutputFormat::Text,
+        _ => OutputFormat::Json,
+    };
+    let tables = match make_tables(&def) {
+        Ok(t) => t,
+        Err(e) => {
+            println!("{}", json!({"outcome": "definition-rejected", "error": e}));
+            return 0;
+        }
+    };
+    let st = match parse(&text) {
+        Ok(s) => s,
+        Err(e) => {
+            println!("{}", json!({"outcome": "rejected", "error": e}));
+            return 0;
+        }
+    };
+    let mut keep = Vec::new();
+    let mut files = Vec::new();
+    for spec in &args[4..] {
+        if spec == "dir" {
+            files.push(File::open(tmp_dir()).expect("open directory"));
+        } else {
+            let t = TempFiles::new(&[unhex(&spec[2..]).as_slice()]);
+            files.push(File::open(&t.paths[0]).unwrap());
+            keep.push(t);
+        }
+    }
+    let out = match run_opened_files(&tables, &st, files, FileRunOpts { format, ..Default::default() }) {
+        Outcome::Ok(fr) => json!({"outcome": "ok", "run": fr.to_json()}),
+        Outcome::Err(e) => json!({"outcome": "error", "error": e}),
+        Outcome::Panic(p) => json!({"outcome": "panic", "msg": p.msg, "at": format!("{}:{}", p.file, p.line), "signature": crate::core::panic_signature(&p)}),
+    };
+    println!("{}", out);
+    0
+}
+
+#[derive(Debug, Clone)]
+pub enum ChildOut {
+    /// the child's JSON report
+    Done(J),
+    /// killed by a signal (abort on allocation failure, stack overflow, ...)
+    Signal(String),
+    /// still running after the time limit (killed)
+    Timeout,
+    Other(String),
+}
+
+/// `files`: Some(content) or None for a directory
+pub fn run_stmt_child(def: &str, stmt: &str, format: &str, files: &[Option<&[u8]>], timeout_s: u64) -> ChildOut {
+    let hex = |b: &[u8]| -> String { b.iter().map(|x| format!("{:02x}", x)).collect() };
+    let exe = std::env::current_exe().unwrap();
+    let mut args: Vec<String> = vec!["--child".into(), "stmt".into(), hex(def.as_bytes()), hex(stmt.as_bytes()), format.into()];
+    for f in files {
+        args.push(match f {
+            Some(c) => format!("h:{}", hex(c)),
+            None => "dir".into(),
+        });
+    }
+    let mut child = match std::process::Command::new(exe).args(&args).stdout(std::process::Stdio::piped()).stderr(std::process::Stdio::piped()).spawn() {
+        Ok(c) => c,
+        Err(e) => return ChildOut::Other(format!("spawn: {}", e)),
+    };
+    let start = std::time::Instant::now();
+    loop {
+        match child.try_wait() {
+            Ok(Some(_)) => break,
+            Ok(None) => {
+                if start.elapsed().as_secs() >= timeout_s {
+                    let _ = child.kill();
+                    let _ = child.wait();
+                    return ChildOut::Timeout;
+                }
+                std::thread::sleep(std::time::Duration::from_millis(5));
+            }
+            Err(e) => return ChildOut::Other(format!("wait: {}", e)),
+        }
+    }
+    let out = match child.wait_with_output() {
+        Ok(o) => o,
+        Err(e) => return ChildOut::Other(format!("output: {}", e)),
+    };
+    if out.status.code().is_none() {
+        return ChildOut::Signal(String::from_utf8_lossy(&out.stderr).lines().last().unwrap_or("").chars().take(200).collect());
+    }
+    let stdout = String::from_utf8_lossy(&out.stdout).to_string();
+    match stdout.lines().last().and_then(|l| serde_json::from_str::<J>(l).ok()) {
+        Some(j) => ChildOut::Done(j),
+        None => ChildOut::Other(format!("exit {:?}: {}", out.status.code(), String::from_utf8_lossy(&out.stderr).lines().last().unwrap_or(""))),
+    }
+}
+
 /// the CLI binary with the given bytes on its standard input (a pipe)
 pub fn run_cli_stdin(args: &[&str], stdin: &[u8]) -> Option<(Vec<String>, String, bool)> {
     use std::io::Write;
